@@ -758,4 +758,43 @@ def fromFolder (n : KNode) : Except String (List Shape) := (parseNode 0 n ([], [
     coordinates, extended-data strings, time stamps / spans) -/
 def idealKml (n : KNode) : KNode := n
 
+/-! ## in-place updates between two exports (`_base.py` set_dt / strip_dt / buffer_dt / set_property, and
+list operations on `collection.geoshapes`).  The writers above are functions of the *current* state only:
+whatever was read, exported or cached before an update must not show in a later export. -/
+
+inductive HOp
+  | setDt (i : Nat) (dt : Dt)                 -- `set_dt(datetime | TimeInterval | None)`, `strip_dt()`, `shape.dt = …`
+  | buffer (i : Nat) (b : Int)                -- `buffer_dt(timedelta)`
+  | setProp (i : Nat) (k : String) (v : PVal) -- `set_property(k, v)`
+  | append (s : Shape)                        -- `geoshapes.append(s)`
+  | replace (i : Nat) (s : Shape)             -- `geoshapes[i] = s`
+  | remove (i : Nat)                          -- `del geoshapes[i]`
+  | observe                                   -- any read: `.properties`, `to_geojson()`, `hash`, `bounds`, an export …
+
+def updateAt (coll : List Shape) (i : Nat) (f : Shape → Except String Shape) : Except String (List Shape) :=
+  match coll[i]? with
+  | none => .error "ERR:Index"
+  | some s => (f s).map fun s' => coll.set i s'
+
+/-- `buffer_dt`: ValueError without time bounds, and from `TimeInterval(…)` when the interval would turn over -/
+def bufferDt (s : Shape) (b : Int) : Except String Shape :=
+  match s.dt with
+  | none => .error "ERR:Value"
+  | some (a, e) => if e + b < a - b then .error "ERR:Value" else .ok { s with dt := some (a - b, e + b) }
+
+def applyOp (coll : List Shape) : HOp → Except String (List Shape)
+  | .setDt i dt => updateAt coll i fun s => .ok { s with dt := dt }
+  | .buffer i b => updateAt coll i fun s => bufferDt s b
+  | .setProp i k v => updateAt coll i fun s => .ok { s with props := dictSet s.props k v }
+  | .append s => .ok (coll ++ [s])
+  | .replace i s => updateAt coll i fun _ => .ok s
+  | .remove i => if i < coll.length then .ok (coll.eraseIdx i) else .error "ERR:Index"
+  | .observe => .ok coll
+
+def applyOps : List Shape → List HOp → Except String (List Shape)
+  | coll, [] => .ok coll
+  | coll, op :: ops => do
+    let c ← applyOp coll op
+    applyOps c ops
+
 end GV.Io
